@@ -549,6 +549,94 @@ impl Elem {
     }
 }
 
+fn local(n: &str) -> &str {
+    n.rsplit(':').next().unwrap_or(n)
+}
+
+/// RFC 6241 section 6 subtree filtering of one data element by one filter element of the same
+/// (local) name: selection nodes (empty) take the whole subtree, content-match nodes (text only)
+/// select their parent, containment nodes recurse.  Attributes of matched elements are kept.
+pub fn subtree_filter(f: &Elem, d: &Elem) -> Option<Elem> {
+    if f.children.is_empty() {
+        // selection node (a content-match node is handled by its parent)
+        return Some(d.clone());
+    }
+    let is_cm = |c: &Elem| c.children.is_empty() && !c.text.trim().is_empty();
+    for cm in f.children.iter().filter(|c| is_cm(c)) {
+        if !d.children.iter().any(|k| local(&k.name) == local(&cm.name) && k.text.trim() == cm.text.trim()) {
+            return None;
+        }
+    }
+    let sel: Vec<&Elem> = f.children.iter().filter(|c| !is_cm(c)).collect();
+    if sel.is_empty() {
+        return Some(d.clone());
+    }
+    let mut kids = Vec::new();
+    let mut selected = false;
+    for k in &d.children {
+        if f.children.iter().any(|c| is_cm(c) && local(&c.name) == local(&k.name)) {
+            kids.push(k.clone());
+            continue;
+        }
+        for fc in &sel {
+            if local(&fc.name) == local(&k.name) {
+                if let Some(r) = subtree_filter(fc, k) {
+                    kids.push(r);
+                    selected = true;
+                }
+                break;
+            }
+        }
+    }
+    if !selected {
+        return None;
+    }
+    Some(Elem { name: d.name.clone(), attrs: d.attrs.clone(), children: kids, text: String::new() })
+}
+
+pub fn render_elem(e: &Elem, out: &mut String) {
+    out.push('<');
+    out.push_str(&e.name);
+    for (k, v) in &e.attrs {
+        out.push_str(&format!(" {k}=\"{}\"", xml_escape(v)));
+    }
+    if e.children.is_empty() && e.text.is_empty() {
+        out.push_str("/>");
+        return;
+    }
+    out.push('>');
+    if e.children.is_empty() {
+        out.push_str(&xml_escape(&e.text));
+    }
+    for c in &e.children {
+        render_elem(c, out);
+    }
+    out.push_str(&format!("</{}>", e.name));
+}
+
+/// Apply the `<filter type="subtree">` of a get-config request (if any) to a rendered configuration.
+pub fn apply_get_filter(req: &Elem, config_xml: &str) -> Result<String, String> {
+    let Some(filter) = req.children.first().and_then(|g| g.child("filter")) else {
+        return Ok(config_xml.to_string());
+    };
+    if filter.attr("type").map_or(false, |t| t != "subtree") {
+        return Err(format!("filter type {:?} not supported by the fake router", filter.attr("type")));
+    }
+    let mut i = 0usize;
+    let data = parse_elem(config_xml.as_bytes(), &mut i).ok_or("fake router cannot parse its own configuration")?;
+    let mut out = String::new();
+    for f in &filter.children {
+        if local(&f.name) == local(&data.name) {
+            match subtree_filter(f, &data) {
+                Some(r) => render_elem(&r, &mut out),
+                // nothing selected: Junos still answers with the (empty) configuration element
+                None => render_elem(&Elem { name: data.name.clone(), attrs: data.attrs.clone(), children: vec![], text: String::new() }, &mut out),
+            }
+        }
+    }
+    Ok(out)
+}
+
 /// One `load-configuration` payload projected to the shape Junos.tla's Load understands.
 /// `foreign`: paths of anything that is not a policy-statement (or not understood inside one).
 pub fn project_update(cfg: &Elem) -> Value {
@@ -1054,13 +1142,25 @@ async fn serve_session(
                 }
             }
             "get-running" => {
-                let g = st.lock().unwrap();
-                reply_body = format!("<data>{}</data>", render_running(&g.running));
+                let rendered = render_running(&st.lock().unwrap().running);
+                match apply_get_filter(&req, &rendered) {
+                    Ok(x) => reply_body = format!("<data>{x}</data>"),
+                    Err(e) => {
+                        log(&st, json!({"ev": "tool_error", "what": e}));
+                        reply_body = format!("<data>{rendered}</data>");
+                    }
+                }
             }
             "get-candidate" => {
                 let e = staged.clone().unwrap_or_else(|| st.lock().unwrap().eph.clone());
                 ev["db_open"] = json!(staged.is_some());
-                reply_body = format!("<data>{}</data>", render_eph(&e));
+                match apply_get_filter(&req, &render_eph(&e)) {
+                    Ok(x) => reply_body = format!("<data>{x}</data>"),
+                    Err(err) => {
+                        log(&st, json!({"ev": "tool_error", "what": err}));
+                        reply_body = format!("<data>{}</data>", render_eph(&e));
+                    }
+                }
             }
             "load" => {
                 let lc = &req.children[0];
